@@ -39,6 +39,9 @@ type Config struct {
 	// between its own and ReloadT; statistic parameters unchanged, so the admitted tokens already in
 	// its window keep counting
 	ReloadT float64 `json:"reload_threshold,omitempty"`
+	// ReloadAll: the reload modifies every rule of the resource (rule #i > 0 toggles between T and T+1), so
+	// several modified rules look for statistics to take over in the same load
+	ReloadAll bool `json:"reload_all,omitempty"`
 }
 
 func (c Config) String() string {
@@ -93,7 +96,7 @@ type opDef struct {
 
 func (o opDef) String() string {
 	if o.reload {
-		return "reload(#0,threshold toggled)"
+		return "reload(thresholds toggled)"
 	}
 	if o.req {
 		return fmt.Sprintf("req(%s,%d)", o.res, o.batch)
@@ -182,6 +185,16 @@ func (s *scen) Apply(i int) (string, string) {
 		}
 		nr.Threshold = s.th[0]
 		s.rules[0] = &nr
+		for i := 1; i < len(s.rules) && s.cfg.ReloadAll; i++ {
+			ni := *s.rules[i]
+			if s.th[i] == s.cfg.Rules[i].T {
+				s.th[i] = s.cfg.Rules[i].T + 1
+			} else {
+				s.th[i] = s.cfg.Rules[i].T
+			}
+			ni.Threshold = s.th[i]
+			s.rules[i] = &ni
+		}
 		if _, err := flow.LoadRules(s.rules); err != nil {
 			return "", "reload failed: " + err.Error()
 		}
@@ -376,6 +389,9 @@ func configs(quick bool) []Config {
 				out = append(out, Config{G: g.g, Rules: []RuleSpec{{2, k, false}}, T0: t0, ReloadT: 3})
 			}
 			out = append(out, Config{G: g.g, Rules: []RuleSpec{{3, g.kinds[5], false}, {2, 0, false}}, T0: t0, ReloadT: 1})
+			// two modified rules with the same statistic parameters in one load (standalone window, and the default)
+			out = append(out, Config{G: g.g, Rules: []RuleSpec{{3, g.kinds[5], false}, {1, g.kinds[5], false}}, T0: t0, ReloadT: 2, ReloadAll: true})
+			out = append(out, Config{G: g.g, Rules: []RuleSpec{{3, 0, false}, {1, 0, false}}, T0: t0, ReloadT: 2, ReloadAll: true})
 			// associated-resource rules (the referenced resource has its own traffic)
 			for _, k := range g.kinds {
 				out = append(out, Config{G: g.g, Rules: []RuleSpec{{2, k, true}}, T0: t0})
